@@ -84,9 +84,10 @@ def _install(ctx, seedlog):
     return TS
 
 
-def _spectrum(ctx, nfft, fs, kind, nd=4):
-    """spectrum given exactly on the FFT bins k*fs/nfft, k = 0..nfft/2-1"""
-    nf = nfft // 2
+def _spectrum(ctx, nfft, fs, kind, nd=4, nyq=False):
+    """spectrum given exactly on the FFT bins k*fs/nfft, k = 0..nfft/2-1 (nyq=True: one more node, at the Nyquist
+    frequency fs/2, carrying energy that the resampled spectrum - bins below fs/2 - does not contain)"""
+    nf = nfft // 2 + (1 if nyq else 0)
     fr = [Fraction(fs) * k / nfft for k in range(nf)]
     f = np.array([SR(x) for x in fr], dtype=object) if ctx.mode == "sym" else np.array([float(x) for x in fr])
     if kind == "1d":
@@ -221,13 +222,13 @@ def _conc_amplitudes(ctx, component, kind, nfft, fs):
         ctx.check(ok, lab, info="amplitudes == definition with the phases of numpy's generator seeded as requested")
 
 
-def case_variance(ctx, component, nfft, fs="2"):
+def case_variance(ctx, component, nfft, fs="2", nyq=False):
     """sample variance of the series == sum over k>=1 of area_k E_k |factor_k|^2 (zero-frequency bin excluded)"""
     if ctx.mode != "sym":
-        return _conc_variance(ctx, component, nfft, fs)
+        return _conc_variance(ctx, component, nfft, fs, nyq)
     seedlog = []
     TS = _install(ctx, seedlog)
-    f, e, s, _ = _spectrum(ctx, nfft, fs, "1d")
+    f, e, s, _ = _spectrum(ctx, nfft, fs, "1d", nyq=nyq)
     nf = nfft // 2
     time, x = TS.surface_timeseries(component, SR(Fraction(fs)), nfft, s, 11)
     if len(x) != nfft:
@@ -258,9 +259,10 @@ def case_variance(ctx, component, nfft, fs="2"):
     ctx.note(f"parseval={ok} amplitudes={good}: together sample variance == sum E df |factor|^2 = {str(tot)[:60]}")
 
 
-def _conc_variance(ctx, component, nfft, fs):
+def _conc_variance(ctx, component, nfft, fs, nyq=False):
     import ocean_science_utilities.wavespectra.timeseries as TS
-    f, e, s, _ = _spectrum(ctx, nfft, fs, "1d")
+    f, e, s, _ = _spectrum(ctx, nfft, fs, "1d", nyq=nyq)
+    f, e = f[:nfft // 2], e[:nfft // 2]
     fs = float(Fraction(fs))
     t, x = TS.surface_timeseries(component, fs, nfft, s, 11)
     if len(x) != nfft:
@@ -324,6 +326,7 @@ def cases(tier):
         add("case_amplitudes", f"amp2d_{comp}", component=comp, kind="2d", opts=dict(weight=30, trig_axioms=False))
     add("case_variance", "var_z_n8", component="z", nfft=8, opts=dict(weight=60, case_timeout_s=280))
     add("case_variance", "var_w_n8", component="w", nfft=8, opts=dict(weight=60, case_timeout_s=280))
+    add("case_variance", "var_z_n8_nyquist_energy", component="z", nfft=8, nyq=True, opts=dict(weight=60, case_timeout_s=280))
     if not q:
         add("case_variance", "var_z_n12", component="z", nfft=12, opts=dict(weight=200, case_timeout_s=1500))
     add("case_scaling", "scaling_n8", opts=dict(weight=20))
